@@ -16,7 +16,10 @@ from decimal import Decimal
 import numpy
 
 
-class TraceEscape(Exception):
+PC_LIMIT = [4000]
+
+
+class TraceEscape(BaseException):
     pass
 
 
@@ -157,6 +160,10 @@ class Sym:
         o = lift(o)
         r = bool(getattr(operator, op)(s.val, o.val))
         CTX.pcs.append((op, s, o, r, _site()))
+        if len(CTX.pcs) > PC_LIMIT[0]:
+            # a symbolic run that keeps deciding comparisons (e.g. a data-driven inner loop that never ends under the
+            # stubs) would otherwise grow without bound: fail closed
+            raise TraceEscape('more than %d data-dependent comparisons in one traced call' % PC_LIMIT[0])
         return r
 
     def __ge__(s, o): return s._c(o, 'ge')
@@ -171,7 +178,10 @@ class Sym:
         if not (isinstance(o, Sym) or is_plain_number(o)):
             return NotImplemented
         return s._c(o, 'ne')
-    __hash__ = object.__hash__
+    def __hash__(s):
+        # Python hashes a float by value and then decides membership with ==: hashing by the shadow value makes a
+        # set / dict of symbolic numbers take the recorded `eq` comparison exactly when the shadow values collide
+        return hash(s.val)
 
     # ---- fail closed
     def __float__(s): raise TraceEscape('float() of a symbolic value')
